@@ -7,6 +7,9 @@
 //	-mode=conc   goroutines x connections x OS processes hammer ONE real SQLite database file;
 //	             prints the recorded history cut into windows (win|...), which the extracted,
 //	             Coq-proved checker linearizable_b decides
+//	-mode=stress ONE backend instance shared by many goroutines working on many log IDs at once
+//	             (stress.go): monitors mon_stale_replace_refused, mon_failed_replace_no_effect,
+//	             mon_fetch_after_success on the recorded history + win| lines per log ID
 //	-mode=child  worker process of -mode=conc (started by re-executing this binary)
 //	-mode=wire   shows how the ETag backend's requests look on the wire (raw bytes of If-Match)
 package main
@@ -45,13 +48,14 @@ func emit(op, args, res string) {
 
 func main() {
 	seed := flag.Int64("seed", 1, "")
-	mode := flag.String("mode", "seq", "seq | conc | child | wire | retry")
+	mode := flag.String("mode", "seq", "seq | conc | stress | child | wire | retry")
 	n := flag.Int("n", 10, "seq: sequences per backend; conc: runs")
 	nops := flag.Int("ops", 40, "seq: operations per sequence")
 	rounds := flag.Int("rounds", 60, "conc: rounds per run")
 	db := flag.String("db", "", "child: database file")
 	base := flag.Int64("base", 0, "child: time base (CLOCK_MONOTONIC ns)")
 	nproc := flag.Int("procs", 1, "conc: number of child processes")
+	scale := flag.Int("scale", 1, "stress: multiplier of the time / call budget of every phase")
 	flag.Parse()
 
 	os.Setenv("AWS_ACCESS_KEY_ID", "verif")
@@ -84,6 +88,11 @@ func main() {
 		must(err)
 		defer os.RemoveAll(dir)
 		runConc(*seed, *n, *rounds, *nproc, dir)
+	case "stress":
+		dir, err := os.MkdirTemp("", "verif-lock-stress-")
+		must(err)
+		defer os.RemoveAll(dir)
+		runStress(*seed, dir, *scale)
 	case "child":
 		runChild(*seed, *db, *base)
 	default:
